@@ -515,8 +515,8 @@ def rule_handler_config(fm, rep, rid='R4c'):
         if len(rts) == 1 and bf is not None:
             v = get_path(list(rts)[0], bf)
             x = v
-            while x is not None and x[0] in ('unsize', 'conv'):
-                x = x[1]
+            while x is not None and (x[0] in ('unsize', 'conv') or (x[0] == 'adt' and x[2] == 'Some' and len(x[3]) == 1)):
+                x = x[1] if x[0] != 'adt' else x[3][0][1]      # an optional handler: Some(Box::new(handler))
             ok = x is not None and term_callee_is(x, 'alloc::boxed::Box::new') and peel(x[2][0]) == ('param', 2)
         rep.ob(rid, 'builder/with_error_handler-stores-the-handler', ok, b.where(), 'errors = Box::new(handler)' if ok else
                'with_error_handler stores %s instead of the handler it was given' % (fmt(v)[:120] if v is not None else '?'))
